@@ -1,5 +1,5 @@
 (* C10 -- Block-wise messages respect the size budget and the client's block size. *)
-From CoapV Require Import Base Header Packet UintOpt BlockValue Encode Response Accessors BlockHandler proofs.P11.
+From CoapV Require Import Base Header Packet UintOpt BlockValue Encode Response Accessors BlockHandler WireSpec PacketOps proofs.PEnc proofs.P01 proofs.P11 proofs.P10.
 
 (* for every budget M with overhead + 28 <= M <= 1280 (overhead = encoded size without payload), whenever the handler
    picks a block size it is 2^(k+4) with k <= 6 (16..1024), at most M - overhead - 12 (so block + block options fit),
@@ -12,6 +12,29 @@ Theorem C10_chosen_size : forall cb overhead tp M b, overhead + 28 <= M -> M <= 
   (forall c, cb = Some c -> b_szx c <= 7 -> overhead + block_size c + 32 <= M -> block_size b = block_size c).
 Proof. exact negotiate_size. Qed.
 Print Assumptions C10_chosen_size.
+
+(* the fragment the handler builds from the application's response fits the budget: for every well-formed response
+   without a Block2 option of its own and every budget with overhead + 28 <= M <= 1280, the first block the handler
+   puts into the response (application options + Block2 + marker + chunk) has wire length <= M, and its payload is at
+   most the chosen block size.  Uses the insertion lemma on the RFC wire image: one option with number <= 268 and
+   a value of <= 12 bytes adds at most 2 + its length, because the successor's delta can only get shorter *)
+Theorem C10_fragment_fits : forall req rp lb M b2 hm req', pkt_wf rp -> response req = Some rp -> get_option rp OPT_BLOCK2 = None ->
+  overhead_of rp + 28 <= M -> M <= 1280 ->
+  negotiate lb (overhead_of rp + len (payload rp)) (len (payload rp)) M = Ok (Some b2) ->
+  serve_cached req b2 rp = (Ok hm, req') ->
+  exists r', response req' = Some r' /\ wire_len (abs r') <= M /\ len (payload r') <= block_size b2.
+Proof. exact fragment_fits. Qed.
+Print Assumptions C10_fragment_fits.
+
+(* the size the handler measures is the RFC wire length without the payload *)
+Theorem C10_overhead_measured : forall p, pkt_wf p -> message_size_hack p = Ok (overhead_of p + len (payload p)).
+Proof. exact message_size_spec. Qed.
+Print Assumptions C10_overhead_measured.
+
+Theorem C10_insertion : forall l prev n0 v0, prev <= n0 -> n0 <= 268 -> len v0 <= 12 -> nums_asc prev l ->
+  opts_len prev (insert n0 v0 l) <= opts_len prev l + 2 + len v0.
+Proof. exact insert_growth. Qed.
+Print Assumptions C10_insertion.
 
 Example C10_example :
   negotiate (Some (mkBlock 0 false 6)) (60 + 5000) 5000 1152 = Ok (Some (mkBlock 0 true 6)) /\
